@@ -204,6 +204,11 @@ def run(rep):
     o = next(o for o in t5[-1]["outrefs"] if o["e"]["path"] and o["e"]["path"][-1] == "target")
     o["e"]["path"][-1] = "referrer"
     cans.append(("emitted_path_reaches_another_question", t5))
+    # the output alone shows an absolute path where the target's innermost repeat also encloses the expression's node
+    t6 = copy.deepcopy(base["trace"])
+    o = next(o for o in t6[-1]["outrefs"] if not o["e"]["abs"] and o["e"]["path"] and o["e"]["path"][-1] == "target" and not o.get("in_ir"))
+    o["e"] = {"abs": True, "up": 0, "path": e["e"]["path"], "cur": False, "inst": ""}
+    cans.append(("emitted_absolute_where_relative_required", t6))
     a, info = tlc.validate_traces(_rp.TRACE_MOD, _rp.TRACE_CFG, [c[1] for c in cans] + [base["trace"]], shards=1, env={"PROP": PROP}, tag="canary")
     wrongly = [cans[i][0] for i in a if i < len(cans)]
     if wrongly or len(cans) not in a:
